@@ -442,7 +442,7 @@ func selfCheck() string {
 		}()
 		select {
 		case selfErr = <-res:
-		case <-time.After(20 * time.Second):
+		case <-time.After(10 * time.Second):
 			selfErr = "timeout"
 		}
 	})
@@ -476,6 +476,9 @@ var hangConfirmed atomic.Bool
 var (
 	hangMemo         sync.Map // case JSON -> ev.Outcome
 	hangShrinkBudget atomic.Int32
+	violationSeen    atomic.Bool // some case of this process already failed (content, not time)
+	hangSeen         atomic.Bool
+	exhFailed        atomic.Bool // the exhaustive sweep already reported a violation
 )
 
 const skippedAfterHang = "skipped_after_confirmed_hang"
@@ -492,14 +495,19 @@ func withHangConfirmation(c any, run func() (ev.Outcome, bool)) ev.Outcome {
 	if o, ok := hangMemo.Load(key); ok {
 		return o.(ev.Outcome)
 	}
-	if hangConfirmed.Load() && hangShrinkBudget.Add(1) > 1 {
+	settled := hangConfirmed.Load() || violationSeen.Load()
+	if settled && hangShrinkBudget.Add(1) > 1 && hangSeen.Load() {
 		return ev.Outcome{Excluded: skippedAfterHang}
 	}
 	o, hang := run()
 	if !hang {
+		if o.Fail != "" {
+			violationSeen.Store(true)
+		}
 		return o
 	}
-	if hangConfirmed.Load() {
+	hangSeen.Store(true)
+	if settled {
 		hangMemo.Store(key, o)
 		return o
 	}
